@@ -18,6 +18,7 @@ from sa import sym, boolalg
 from sa.sym import show, num, num_value, atoms_of
 from sa.model import dotted, own_calls, own_nodes, callee_attr
 from .toastgeom import level1_table
+from . import common
 
 S = "toasty.samplers"
 T = "toasty.toast"
@@ -208,7 +209,8 @@ def _r3_chunk(run):
     project = run.project
     outer = project.fn(S + ".ChunkedPlateCarreeSampler.sampler")
     run.note_func(outer)
-    ev = sym.make_evaluator(project, S, [])
+    # grid arithmetic shared with the plain samplers may live in helpers of the module (a record of sizes / scales / origins)
+    ev = sym.make_evaluator(project, S, [], inline_local=True, no_inline=("_chunk_bounds",))
     ro = ev.run(outer.node)
     inner = [k for k in ro.nested]
     if not inner:
@@ -255,6 +257,9 @@ def _r3_chunk(run):
         oky = ub.get(iy_t) is not None and ub[iy_t][0] == "item" and ub[iy_t][2] == 0
         if okx and oky:
             run.holds("C07.R3", outer, fills[0].node, "one mask (0 <= ix < nx) & (0 <= iy < ny) applied to iy, ix and both buffer index arrays")
+        elif [u_ for b_ in (ub.get(ix_t), ub.get(iy_t)) if b_ is not None for u_ in common.unfollowed_project_calls(project, b_)]:
+            run.undecided("C07.R3", outer, fills[0].node, "index upper bounds are %s / %s: they come from a project helper that is not followed" % (
+                show(ub.get(ix_t))[:60], show(ub.get(iy_t))[:60]), kind="mask-axis-opaque")
         else:
             run.violated("C07.R3", outer, fills[0].node, "index upper bounds are %s / %s; expected ix < shape[1] and iy < shape[0]" % (
                 show(ub.get(ix_t))[:60], show(ub.get(iy_t))[:60]), kind="mask-axis")
@@ -281,7 +286,7 @@ def _axis_of(term, xs, ys):
 
 def _r4_bounds(run):
     project = run.project
-    ev = sym.make_evaluator(project, S, [])
+    ev = sym.make_evaluator(project, S, [], inline_local=True, no_inline=("_chunk_bounds", "_latlon_tile_filter"))
     # (a) chunk bounds
     f = project.fn(S + ".ChunkedPlateCarreeSampler._chunk_bounds")
     run.note_func(f)
@@ -404,6 +409,9 @@ def _r4_bounds(run):
                 run.violated("C07.R4", sm, fills[0].node, "chunk sampler: the row index at lat = lat_max is %s, expected -1/2 (rows counted down from the top edge)" % show(oy), kind="chunk-unpack")
             else:
                 run.holds("C07.R4", sm, fills[0].node, "chunk sampler uses (bounds[0], bounds[1]) for the column index and (bounds[2], bounds[3]) for the row index")
+        elif common.unfollowed_project_calls(project, fx) or common.unfollowed_project_calls(project, fy):
+            run.undecided("C07.R4", sm, fills[0].node, "chunk sampler: the index arithmetic goes through %s, which is not followed" % show(
+                (common.unfollowed_project_calls(project, fx) + common.unfollowed_project_calls(project, fy))[0])[:70], kind="chunk-unpack-opaque")
         else:
             run.violated("C07.R4", sm, fills[0].node, "chunk sampler computes the column index from bounds %s and the row index from bounds %s of _chunk_bounds; "
                          "expected (lon_min, lon_max) = items 0, 1 and (lat_min, lat_max) = items 2, 3" % used, kind="chunk-unpack")
